@@ -158,9 +158,15 @@ func readUdt(source []byte, inj injector, fieldNames []string, fieldCodecs []Cod
 	total := reader.Len()
 	for i, fieldCodec := range fieldCodecs {
 		name := fieldNames[i]
-		if encodedField, err := primitive.ReadBytes(reader); err != nil {
-			return errCannotReadUdtField(i, name, err)
-		} else if decodedField, err := inj.zeroElem(i, name); err != nil {
+		var encodedField []byte
+		var err error
+		// a UDT value may have fewer fields than the type has (fields added to the type later): the missing ones are null
+		if reader.Len() > 0 {
+			if encodedField, err = primitive.ReadBytes(reader); err != nil {
+				return errCannotReadUdtField(i, name, err)
+			}
+		}
+		if decodedField, err := inj.zeroElem(i, name); err != nil {
 			return errCannotCreateUdtField(i, name, err)
 		} else if fieldWasNull, err := fieldCodec.Decode(encodedField, decodedField, version); err != nil {
 			return errCannotDecodeUdtField(i, name, err)
